@@ -120,6 +120,16 @@ Zero(n) == T("zero", "", n, n)
 Align(n) == T("align", "", n, 0)
 Uleb(l) == T("uleb", l, 0, 1)
 Sec(l) == T("sec", l, 0, 0)
+\* symbol-attribute directives (ELF): a = 0 .weak L | 1 .globl L | 2 .hidden L | 3 .type L, @object.
+\* The directive NAMES a symbol (it resolves like any other mention: an unknown name is refused
+\* unless undefined symbols are allowed) and records binding / visibility / type for it.
+Attr(l, a) == T("attr", l, a, 0)
+AttrField(a) == CASE a \in {0, 1} -> "b" [] a = 2 -> "v" [] OTHER -> "t"
+AttrValue(a) == CASE a = 0 -> "WEAK" [] a = 1 -> "GLOBAL" [] a = 2 -> "HIDDEN" [] OTHER -> "OBJECT"
+NoEsa == [b |-> "LOCAL", v |-> "DEFAULT", t |-> "NOTYPE"]
+SetEsa(r, a) == CASE AttrField(a) = "b" -> [r EXCEPT !.b = AttrValue(a)]
+                  [] AttrField(a) = "v" -> [r EXCEPT !.v = AttrValue(a)]
+                  [] OTHER -> [r EXCEPT !.t = AttrValue(a)]
 CfiStart == T("cfistart", "", 0, 0)
 CfiEnd == T("cfiend", "", 0, 0)
 CfiDef == T("cfidef", "", 16, 0)
@@ -151,6 +161,9 @@ VocabOf(v) ==
                         RefOp("got", "b", 4), RefOp("gotlo", "a", 0), RefOp("lea", "a", 8),
                         RefOp("ldlit", "b", 4),
                         JmpOff("a"), JccOff("x"), CallOff("b")>>
+    \* symbol-attribute directives against labels, module symbols, unknown names and uses
+    [] v = "attr"  -> <<Op, Label("g"), Label("a"), Attr("g", 0), Attr("g", 1), Attr("g", 2), Attr("g", 3),
+                        Attr("u", 0), Attr("a", 2), Attr("b", 1), Call("a"), Jmp("u"), Quad("u", 0), Jmp("g")>>
     [] v = "mini"  -> <<Op, Jmp("x"), Label("x"), Byte(1), Ret>>
 Vocab == VocabOf(VocabName)
 
@@ -183,6 +196,7 @@ ExpName(P, l) == IF l \in TempNames THEN P.rn[l] \o P.sfx ELSE P.rn[l]
 (*  R.syms  <<[nm, k : "blk"|"proxy"|"stale", sec, o, n, e]>>              *)
 (*  R.sx    <<[sec, o, k : "C"|"A", s1, s2, add, at, sz, m1, l1, m2, l2]>> *)
 (*  R.nprox number of proxies of the result                                *)
+(*  R.esa   <<[nm, b, v, t]>> ELF symbol attributes recorded by directives *)
 (***************************************************************************)
 \* position of every token: section and offset = sum of the sizes before it
 \* in that section; a new chunk starts in the text section
@@ -472,7 +486,8 @@ C12_Operands(V, dec) ==
 \* a reference in chunk c sees the labels of chunks <= c (the pre-pass
 \* creates the labels of a whole chunk before anything is streamed).
 DefinedBy(V, l, c) == \E i \in DefIdx(V, l) : V.toks[i].vc <= c
-RefIdx(V) == {i \in Idx(V) : HasRef(V.toks[i])}
+\* tokens that mention a symbol by name (operands, data words, attribute directives)
+RefIdx(V) == {i \in Idx(V) : HasRef(V.toks[i]) \/ V.toks[i].k = "attr"}
 Unresolved(V, i) == /\ V.toks[i].l \notin V.P.ms /\ ~DefinedBy(V, V.toks[i].l, V.toks[i].vc)
 Conflict(V, i) ==      \* label token i defines an existing name
   LET l == V.toks[i].l
@@ -558,6 +573,20 @@ C13_Assignments(V) ==
   \A i \in Idx(V) : V.toks[i].k = "assign" =>
      LET c == SelectSeq(V.R.syms, LAMBDA y : y.nm = ExpName(V.P, V.toks[i].l))
      IN  Len(c) = 1 /\ c[1].k = "int" /\ c[1].o = V.toks[i].a
+\* C13_SymAttrs: the attribute directives are recorded for the symbol their name resolves to
+\* (the label of the patch under its expected name, else the module's / the new undefined
+\* symbol), the last directive per field wins, untouched fields keep their defaults, and
+\* nothing else gets attributes
+AttrIdx(V) == {i \in Idx(V) : V.toks[i].k = "attr"}
+AttrName(V, l) == IF DefIdx(V, l) # {} THEN ExpName(V.P, l) ELSE V.P.rn[l]
+ExpEsa(V, l) ==
+  LET idx == SortSeq(SetToSeq({i \in AttrIdx(V) : V.toks[i].l = l}), LAMBDA x, y : x < y)
+      f[k \in 0..Len(idx)] == IF k = 0 THEN NoEsa ELSE SetEsa(f[k - 1], V.toks[idx[k]].a)
+      e == f[Len(idx)]
+  IN  [nm |-> AttrName(V, l), b |-> e.b, v |-> e.v, t |-> e.t]
+C13_SymAttrs(V) ==
+  LET want == {ExpEsa(V, l) : l \in {V.toks[i].l : i \in AttrIdx(V)}}
+  IN  Range(V.R.esa) = want /\ Len(V.R.esa) = Cardinality(want)
 \* C13_Binding: a name of the module binds to the module's own object,
 \* any other to a symbol of the result; the result never shadows the module
 C13_Binding(V) ==
@@ -574,7 +603,7 @@ C13_Binding(V) ==
 NoForwardRef(V) ==
   \A i \in RefIdx(V) : \A j \in DefIdx(V, V.toks[i].l) : V.toks[j].vc <= V.toks[i].vc
 NormR(R) ==
-  [secs |-> R.secs, syms |-> Range(R.syms), sx |-> Range(R.sx), nprox |-> R.nprox,
+  [secs |-> R.secs, syms |-> Range(R.syms), sx |-> Range(R.sx), nprox |-> R.nprox, esa |-> Range(R.esa),
    edges |-> {[s |-> e.s, t |-> NormNode(e.t), ty |-> e.ty, c |-> e.c, d |-> e.d] : e \in Edges(R)}]
 ChunkingDomain(V) == NoForwardRef(V) /\ CfiWellFormed(V)
 C13_Chunking(V, Rw, excw) ==
@@ -595,7 +624,8 @@ NoProc == [sec |-> 0, imp |-> FALSE, hs |-> FALSE, sb |-> 0, sd |-> 0, he |-> FA
 InitState ==
   [secs |-> <<>>, cur |-> 0, blk |-> <<>>, np |-> 0, edges |-> {}, code |-> {},
    bt |-> {}, al |-> {}, sy |-> [l \in NameU |-> NoSym], sx |-> {}, cfi |-> <<>>,
-   fopen |-> FALSE, data |-> {}, keys |-> {}, asg |-> {}, err |-> ""]
+   fopen |-> FALSE, data |-> {}, keys |-> {}, asg |-> {}, err |-> "",
+   esa |-> [l \in NameU |-> [on |-> FALSE, r |-> NoEsa]]]
 
 Fail(s, e) == [s EXCEPT !.err = e]
 SecIdx(s, name) == LET c == {i \in DOMAIN s.secs : s.secs[i].name = name}
@@ -780,8 +810,15 @@ StartChunk(s, P) ==
 EndChunk(s, P) ==
   IF s.fopen /\ ~P.icfi THEN Fail(s, "AsmSyntaxError") ELSE [s EXCEPT !.fopen = FALSE]
 
+\* _Streamer.emit_symbol_attribute (ELF): _resolve_symbol, then elf_symbol_attributes[sym].<field>
+DoAttr(s, P, t) ==
+  LET r == Resolve(s, P, t.l)
+  IN  IF r.err # "" THEN Fail(s, r.err)
+      ELSE [r.st EXCEPT !.esa[t.l] = [on |-> TRUE, r |-> SetEsa(@.r, t.a)]]
+
 Step(s, P, t) ==
   CASE t.k = "label" -> DoLabel(s, t)
+    [] t.k = "attr" -> DoAttr(s, P, t)
     [] t.k \in InsnKinds -> DoInsn(s, P, t)
     [] t.k \in {"byte", "zero"} -> DoBytes(s, t)
     [] t.k = "quad" -> DoValue(s, P, t)
@@ -955,13 +992,16 @@ Canon(s, P) ==
        syms |-> SetToSeq({sym(l) : l \in {x \in NameU : s.sy[x].def}}),
        sx |-> SetToSeq({sx(x) : x \in s.sx}),
        nprox |-> s.np,
+       esa |-> SetToSeq({[nm |-> IF s.sy[l].def THEN s.sy[l].nm ELSE P.rn[l],
+                          b |-> s.esa[l].r.b, v |-> s.esa[l].r.v, t |-> s.esa[l].r.t] :
+                            l \in {x \in NameU : s.esa[x].on}}),
        cfi |-> [i \in DOMAIN s.cfi |->
                   LET p == s.cfi[i]
                   IN  [sec |-> s.secs[p.sec].name, imp |-> p.imp, hs |-> p.hs,
                        so |-> IF p.hs THEN s.blk[p.sb].off ELSE 0, sd |-> p.sd, he |-> p.he,
                        eo |-> IF p.he THEN s.blk[p.eb].off ELSE 0, ed |-> p.ed,
                        ins |-> [q \in DOMAIN p.ins |-> [o |-> s.blk[p.ins[q].b].off, d |-> p.ins[q].d, v |-> p.ins[q].v]]]]]
-EmptyR == [secs |-> <<>>, edges |-> <<>>, syms |-> <<>>, sx |-> <<>>, nprox |-> 0, cfi |-> <<>>]
+EmptyR == [secs |-> <<>>, edges |-> <<>>, syms |-> <<>>, sx |-> <<>>, nprox |-> 0, cfi |-> <<>>, esa |-> <<>>]
 
 \* nominal decoding of the model's own tokens
 NominalDec(toks) == [i \in DOMAIN toks |-> [k |-> ClassOf(toks[i].k), n |-> toks[i].n, fo |-> <<>>, fs |-> <<>>]]
@@ -975,7 +1015,7 @@ ModelView(toks, P, s) ==
 \* (the ISA matters to the model only through the attribute table and the
 \*  MIPS return idiom; the "ops" vocabulary is explored for ARM64 and MIPS32)
 ModelISAs == IF VocabName = "ops" THEN {"arm64", "mips32"}
-             ELSE IF VocabName = "asg" THEN {"x64", "arm64"} ELSE {"x64"}
+             ELSE IF VocabName \in {"asg", "attr"} THEN {"x64", "arm64"} ELSE {"x64"}
 Params == {[tu |-> tu, au |-> au, icfi |-> ic, sfx |-> "_7", ms |-> ms, plt |-> FALSE, isa |-> isa, syn |-> "att",
             mips |-> isa = "mips32", rn |-> IdNames] :
               tu \in TUs, au \in AUs, ic \in ICFIs, ms \in MSs, isa \in ModelISAs}
@@ -1036,7 +1076,7 @@ LevelA(V, dec) ==
   /\ C12_Decode(V, dec) /\ C12_Tiling(V) /\ C12_TerminatorsEndBlocks(V) /\ C12_EdgeShape(V)
   /\ C12_Fallthrough(V) /\ C12_Labels(V) /\ (HasCfi(V) \/ C12_DataConversion(V))
   /\ C12_Operands(V, dec) /\ C13_Binding(V) /\ C13_TempSuffix(V) /\ C13_Assignments(V) /\ C12_Strings(V)
-  /\ C12_Alignment(V)
+  /\ C12_Alignment(V) /\ C13_SymAttrs(V)
 \* the model agrees with the function RunAll (the actions and the fold are the same machine)
 FoldAgrees == ph = "done" => fin = RunAll(par, prog)
 InvDone ==
